@@ -29,10 +29,10 @@ def run(tier, seed):
     zones = QUICK_ZONES if q else all_zones()
     js = []
     for i, z in enumerate(zones):
-        js.append(core.Job(exes[("fmt_direct", "dbg")], ["--mode", "ts", "--seed", seed * 1000 + i, "--cases", 12000 if q else 8000],
+        js.append(core.Job(exes[("fmt_direct", "dbg")], ["--mode", "ts", "--seed", seed * 1000 + i, "--cases", 60000 if q else 40000],
                            variant="dbg", env={"TZ": z}, timeout=1800, tag="fmt_direct.ts." + z, prop=PROP))
     for i, z in enumerate(zones[:6] if q else zones[::6]):
-        js.append(core.Job(exes[("fmt_direct", "asan")], ["--mode", "ts", "--seed", seed * 1000 + 500 + i, "--cases", 3000],
+        js.append(core.Job(exes[("fmt_direct", "asan")], ["--mode", "ts", "--seed", seed * 1000 + 500 + i, "--cases", 12000],
                            variant="asan", env={"TZ": z}, timeout=1800, tag="fmt_direct.ts.asan." + z, prop=PROP))
     col = core.Collector(PROP)
     for j in core.run_jobs(js):
